@@ -14,7 +14,11 @@ structure AcqPost (r : Rd) (n m : Nat) (r' : Rd) : Prop where
             (m = r'.buf.length - r'.ri ∧ r'.err ≠ none)
   inv : Inv r'
 
-/-- a request is in range when `n + ri ≤ 2^63` (always true of Go ints that index real memory) -/
+/-- the range in which the MODEL is well behaved: `n + ri ≤ 2^63` (its fuel-64 doubling loops reach
+    their targets).  This is a fact about the model only: the Go code panics inside mcache for
+    capacity requests above 2^45 and spins for `n > 2^62` — the domain in which the model mirrors the
+    code is `Rd.InDomain` (`n + ri ≤ 2^43`, Lemmas/ReaderAlloc.lean), which every Props/C04 theorem
+    carries. -/
 def Rd.Small (r : Rd) (n : Nat) : Prop := n + r.ri ≤ reqMax
 
 /-- size of the request an operation makes -/
